@@ -349,11 +349,11 @@ func (e *Enc) appendCall(cur *cursor, v ssa.Value, c *ssa.CallCommon, pos token.
 		na := e.fresh(ln, "(Array Addr "+leaves[ln]+")")
 		// na agrees with arr everywhere except inside the new backing array, where it holds the copy
 		e.assume(cur.guard, fmt.Sprintf("(forall ((a Addr)) (! (=> (not (and ((_ is Elem) a) (= (elem_a a) %s))) (= (select %s a) (select %s a))) :pattern ((select %s a))))", nb, na, arr, na))
-		e.assume(cur.guard, fmt.Sprintf("(forall ((k Int)) (! (=> (and (<= 0 k) (< k (sl_len %s))) (= (select %s (Elem %s k)) (select %s (selem %s k)))) :pattern ((select %s (Elem %s k)))))", s, na, nb, arr, s, na, nb))
+		e.assume(cur.guard, fmt.Sprintf("(forall ((k Int)) (! (=> (and (<= 0 k) (< k (sl_len %s))) (= (select %s (Elem %s k)) (select %s (selem (sl_base %s) (sl_off %s) k)))) :pattern ((select %s (Elem %s k)))))", s, na, nb, arr, s, s, na, nb))
 		st.heap[ln] = e.define(ln, "(Array Addr "+leaves[ln]+")", fmt.Sprintf("(ite %s %s %s)", fits, arr, na))
 	}
 	for i, x := range elems {
-		a := fmt.Sprintf("(selem %s (+ (sl_len %s) %d))", r, s, i)
+		a := selemT(r, fmt.Sprintf("(+ (sl_len %s) %d)", s, i))
 		e.storeAt(st, a, el, x)
 		e.elemStoreOblige(cur, x, el, pos, "appended element")
 	}
@@ -472,6 +472,13 @@ func (e *Enc) applyContractSig(cur *cursor, v ssa.Value, name string, callee *ss
 		if ct.HasMod {
 			e.frameHavoc(cur, callee, sig, ct, args, pre, eff)
 		} else {
+			if len(ct.Updates) > 0 {
+				// ghost effects are exactly the `updates` clause
+				e2 := newEffects()
+				e2.add(eff)
+				e2.ghost = map[string]bool{"$alloc": true}
+				eff = e2
+			}
 			e.havocEffects(cur.st, eff, cur.guard)
 		}
 	}
@@ -567,13 +574,41 @@ func (e *Enc) modLocs(cur *cursor, callee *ssa.Function, sig *types.Signature, c
 			out[strings.TrimSpace(m[6:])] = []string{"*"}
 			continue
 		}
+		cond := ""
+		if i := strings.Index(m, " if "); i >= 0 {
+			cond = strings.TrimSpace(m[i+4:])
+			m = strings.TrimSpace(m[:i])
+		}
 		x, err := parseSpec(m)
 		if err != nil {
 			e.unsupportedf("modifies %q: %v", m, err)
 			continue
 		}
 		sc := e.calleeCtx(cur, callee, sig, args, pre, pre, nil)
-		e.placeArrays(sc, x, out)
+		sc.guard = ""
+		if cond == "" {
+			e.placeArrays(sc, x, out)
+			continue
+		}
+		cx, err := parseSpec(cond)
+		if err != nil {
+			e.unsupportedf("modifies condition %q: %v", cond, err)
+			continue
+		}
+		ct := e.specBool(sc, cx)
+		tmp := map[string][]string{}
+		e.placeArrays(sc, x, tmp)
+		for h, ls := range tmp {
+			for _, l := range ls {
+				if l == "*" {
+					out[h] = append(out[h], "pred:"+ct)
+				} else if strings.HasPrefix(l, "pred:") {
+					out[h] = append(out[h], fmt.Sprintf("pred:(and %s %s)", ct, l[5:]))
+				} else {
+					out[h] = append(out[h], fmt.Sprintf("pred:(and %s (= a %s))", ct, l))
+				}
+			}
+		}
 	}
 	return out
 }
@@ -601,6 +636,17 @@ func (e *Enc) placeArrays(sc *specCtx, x SExpr, out map[string][]string) {
 			for ln := range leaves {
 				out[ln] = append(out[ln], pred)
 			}
+			return
+		}
+		if n.Fn == "mapof" && len(n.Args) == 1 {
+			v := sc.val(n.Args[0])
+			if _, ok := v.Ty.Underlying().(*types.Map); !ok {
+				e.unsupportedf("modifies: mapof of non-map")
+				return
+			}
+			dn, _, vn, _ := e.mapArrs(v.Ty)
+			out[dn] = append(out[dn], sc.mat(v))
+			out[vn] = append(out[vn], sc.mat(v))
 			return
 		}
 		e.unsupportedf("modifies: unsupported location %s", sexprString(x))
@@ -887,6 +933,8 @@ func (m *Model) verifyFunc(name string, ct *Contract) (*Enc, error) {
 		}
 		if ct.HasMod {
 			e.frameObligations(fc, r, k)
+		} else if len(ct.Updates) > 0 {
+			e.ghostFrameObligations(fc, r, k)
 		}
 	}
 	if len(rets) == 0 {
@@ -980,6 +1028,22 @@ func (e *Enc) frameObligations(fc *fctx, r retInfo, k int) {
 			continue
 		}
 		e.oblige(r.guard, "frame", fmt.Sprintf("%s@ret%d", g, k), fmt.Sprintf("(= %s %s@in)", now, g), e.contractProps(ct, "frame"), fc.fn.Pos(), "modifies clause")
+	}
+}
+
+// ghostFrameObligations: a contract with an `updates` clause (and no modifies clause) promises that
+// every other ghost variable keeps its entry value.
+func (e *Enc) ghostFrameObligations(fc *fctx, r retInfo, k int) {
+	ct := fc.contract
+	for _, g := range sortedKeys(e.m.funcEffects(fc.fn).ghost) {
+		if g == "$alloc" || hasStr(ct.Updates, g) {
+			continue
+		}
+		now := e.ghostGet(r.st, g)
+		if now == g+"@in" {
+			continue
+		}
+		e.oblige(r.guard, "frame", fmt.Sprintf("%s@ret%d", g, k), fmt.Sprintf("(= %s %s@in)", now, g), e.contractProps(ct, "frame"), fc.fn.Pos(), "updates clause: "+g+" is not listed")
 	}
 }
 
